@@ -97,6 +97,42 @@ type hState struct {
 	q  ref.FeeQuote
 	tx *bt.Tx
 	fq *bt.FeeQuote
+	// every breakdown the library handed out, with the reference it had to equal at that
+	// moment: looked at again after the last step (a result is a value; a later call or a
+	// later edit of the transaction must not reach back into it)
+	keptSizes []hKeptSize
+	keptFees  []hKeptFees
+	step      int
+}
+
+type hKeptSize struct {
+	what string
+	step int
+	got  *bt.TxSize
+	want ref.FeeSizes
+}
+
+type hKeptFees struct {
+	step int
+	got  *bt.TxFees
+	want [3]uint64 // total, std, data
+}
+
+// hRetained compares everything handed out during the history with what it had to be.
+func (s *hState) hRetained() error {
+	for i, k := range s.keptSizes {
+		if k.got.TotalBytes != k.want.Total || k.got.TotalStdBytes != k.want.Std || k.got.TotalDataBytes != k.want.Data {
+			return fmt.Errorf("the %s result handed out at step %d (result %d of %d) was {total %d std %d data %d} then and reads %+v after the history: a later call or edit changed a result already returned",
+				k.what, k.step, i+1, len(s.keptSizes), k.want.Total, k.want.Std, k.want.Data, *k.got)
+		}
+	}
+	for i, k := range s.keptFees {
+		if k.got.TotalFeePaid != k.want[0] || k.got.StdFeePaid != k.want[1] || k.got.DataFeePaid != k.want[2] {
+			return fmt.Errorf("the EstimateFeesPaid result handed out at step %d (result %d of %d) was {total %d std %d data %d} then and reads %+v after the history: a later call or edit changed a result already returned",
+				k.step, i+1, len(s.keptFees), k.want[0], k.want[1], k.want[2], *k.got)
+		}
+	}
+	return nil
 }
 
 // hValid reports whether the op is well formed for the state (a replayed file may hold anything).
@@ -367,6 +403,7 @@ func (s *hState) hAnswers(mask int) (sizes ref.FeeSizes, estErr string, err erro
 		if got.TotalBytes != want.Total || got.TotalStdBytes != want.Std || got.TotalDataBytes != want.Data {
 			return sizes, "", fmt.Errorf("SizeWithTypes() = %+v, reference for the transaction as it stands {total %d std %d data %d}", *got, want.Total, want.Std, want.Data)
 		}
+		s.keptSizes = append(s.keptSizes, hKeptSize{"SizeWithTypes", s.step, got, want})
 	}
 	if mask&qPaid != 0 {
 		feeAct, _, _ := ref.FeeCalc(want, s.q)
@@ -444,6 +481,8 @@ func (s *hState) hAnswers(mask int) (sizes ref.FeeSizes, estErr string, err erro
 			return sizes, estErr, fmt.Errorf("EstimateSizeWithTypes failed on a P2PKH-funded transaction: %v", e)
 		case got.TotalBytes != wantEst.Total || got.TotalStdBytes != wantEst.Std || got.TotalDataBytes != wantEst.Data:
 			return sizes, estErr, fmt.Errorf("EstimateSizeWithTypes = %+v, reference for the transaction as it stands %+v", *got, wantEst)
+		default:
+			s.keptSizes = append(s.keptSizes, hKeptSize{"EstimateSizeWithTypes", s.step, got, wantEst})
 		}
 	}
 	if mask&qEstFees != 0 {
@@ -459,6 +498,8 @@ func (s *hState) hAnswers(mask int) (sizes ref.FeeSizes, estErr string, err erro
 			return sizes, estErr, fmt.Errorf("EstimateFeesPaid = {total %d std %d data %d}, floor(%d*%d/%d)=%s + floor(%d*%d/%d)=%s = %s for the transaction and quote as they stand",
 				got.TotalFeePaid, got.StdFeePaid, got.DataFeePaid,
 				wantEst.Std, s.q.Std.Sat, s.q.Std.Bytes, feeStd, wantEst.Data, s.q.Data.Sat, s.q.Data.Bytes, feeData, feeEst)
+		default:
+			s.keptFees = append(s.keptFees, hKeptFees{s.step, got, [3]uint64{feeEst.Uint64(), feeStd.Uint64(), feeData.Uint64()}})
 		}
 	}
 	if mask&qEstPaid != 0 {
@@ -567,6 +608,7 @@ func checkHistory(ctx *pbt.Ctx, c HistCase) error {
 		}
 	}
 	for i, op := range c.Ops {
+		s.step = i + 1
 		what, err := s.apply(op)
 		if err != nil {
 			return fmt.Errorf("step %d (%s): %v", i+1, op.Kind, err)
@@ -628,6 +670,12 @@ func checkHistory(ctx *pbt.Ctx, c HistCase) error {
 		if est != "not-queried" {
 			prevEst = est
 		}
+	}
+	if err := s.hRetained(); err != nil {
+		return fmt.Errorf("history %s: %v", hKinds(c.Ops), err)
+	}
+	if len(s.keptSizes)+len(s.keptFees) >= 2 {
+		ctx.Label("retained-results>=2")
 	}
 	// the queries are read-only: the object still holds what the model holds
 	if got := ref.FromLib(s.tx); !bytes.Equal(ref.Encode(got, true), ref.Encode(s.m, true)) {
